@@ -68,6 +68,10 @@ def check(run, ctx):
     r4(run, ctx, f, cfg, stop, loops)
     r5(run, ctx, f, cfg, stop, kill)
     r6(run, ctx)
+    from rules import c04
+    run.share(ctx, c04.r2, 'R2', 'R7', 'a worker is untracked only after its termination routine '
+              'reported completion or it is dead (shared with C04 R2): Watcher.send_signal only '
+              'signals tracked pids, so untracking early drops the SIGKILL of an in-flight kill')
 
 
 def r1(run, ctx, f, cfg, stop, kill, loops):
